@@ -1423,6 +1423,9 @@ impl Exit for VirtualSystem {
     fn exit(&self, exit_status: ExitStatus) -> impl Future<Output = Infallible> + use<> {
         let mut myself = self.current_process_mut();
         let parent_pid = myself.ppid;
+        // Only the least significant 8 bits of the exit status are made
+        // available to the parent process, as in the real system.
+        let exit_status = ExitStatus(exit_status.0 & 0xFF);
         let exited = myself.set_state(ProcessState::exited(exit_status));
         drop(myself);
         if exited {
